@@ -99,7 +99,20 @@ def oracle_stack(case, obs):
 
 
 # ------------------------------------------------------------------ (B) protocol traces
-def build_kind_app(kind, tmpdir):
+# what the reroute target answers: (status line, header list, body chunks) - all conforming, all of a kind that a
+# re-serialising relay would "correct" (relative Location, validators on 304, Content-Length on 204, repeated headers,
+# custom reason phrase)
+TARGETS = {
+    'plain203': ('203 Non-Authoritative Information', [('Content-Type', 'text/plain'), ('X-Target', 'yes')], [b'from ', b'target']),
+    'rel_redirect': ('302 Found', [('Location', '../elsewhere?x=1'), ('Content-Type', 'text/plain'), ('X-Target', 'yes')], [b'moved']),
+    'notmod': ('304 Not Modified', [('Last-Modified', 'Fri, 14 Jul 2017 02:40:00 GMT'), ('ETag', '"abc"'), ('X-Target', 'yes')], []),
+    'nocontent': ('204 No Content', [('Content-Length', '0'), ('X-Target', 'yes')], []),
+    'repeated': ('200 Fine By Me', [('Set-Cookie', 'a=1'), ('Set-Cookie', 'b=2'), ('x-lower', 'v'), ('Content-Type', 'text/plain'),
+                                   ('X-Target', 'yes')], [b'', b'a', b'', b'bc']),
+}
+
+
+def build_kind_app(kind, tmpdir, target_kind='plain203'):
     from clastic import Application, Response, redirect, POST
     from clastic.application import RerouteWSGI
     from clastic.errors import Forbidden
@@ -108,10 +121,12 @@ def build_kind_app(kind, tmpdir):
     from clastic.render import render_basic
     from clastic.static import StaticApplication
 
+    t_status, t_headers, t_body = TARGETS[target_kind]
+
     def target(environ, start_response):
-        start_response('203 Non-Authoritative Information', [('Content-Type', 'text/plain'), ('X-Target', 'yes')])
+        start_response(t_status, list(t_headers))
         _SEQ.append(('target', id(environ), sorted((k, repr(v)) for k, v in environ.items())))
-        return [] if environ['REQUEST_METHOD'] == 'HEAD' else [b'from ', b'target']      # the target itself conforms
+        return [] if environ['REQUEST_METHOD'] == 'HEAD' else list(t_body)      # the target itself conforms
 
     def boom():
         raise ValueError('boom')
@@ -177,7 +192,7 @@ def impl_kind(case):
         with open(os.path.join(tmp, 'file.txt'), 'wb') as f:
             f.write(b'static content ' * 100)
         os.utime(os.path.join(tmp, 'file.txt'), (1500000000, 1500000000))
-        app = build_kind_app(kind, tmp)
+        app = build_kind_app(kind, tmp, case.get('target', 'plain203'))
         path = {'ok': '/ok', 'stream': '/stream', 'ctx': '/ctx', 'static': '/static/file.txt', 'static304': '/static/file.txt',
                 'redirect': '/redirect', 'notfound': '/nope', 'wrongmethod': '/postonly', 'boom': '/boom', 'debugboom': '/boom',
                 'meta': '/meta/', 'gzip': '/ok', 'cache': '/ok', 'empty': '/empty', 'ret403': '/ret403', 'reroute': '/reroute',
@@ -295,13 +310,17 @@ def run(rep, b, tier, seed, only_cases=None):
             for method in METHODS:
                 for h in (hdrsets if tier != 'quick' else hdrsets[:2]):
                     cases.append({'lab': 'kind', 'kind': kind, 'method': method, 'headers': h})
+        for kind in ('reroute', 'reroute_raise'):
+            for tk in sorted(TARGETS):
+                for method in METHODS:
+                    cases.append({'lab': 'kind', 'kind': kind, 'method': method, 'headers': None, 'target': tk})
     rep.rule = ('wsgilab: (A) random application trees to depth 2 with application-, sub-application- and route-level middlewares over 4 '
                 'types (some with wsgi_wrapper, duplicates of a type inside and across lists), optional error-handler wrapper; the order '
                 'in which a request passes the wrappers vs Model/Wsgi.wrapper_sequence. (B) %d response kinds (Response, streamed, '
                 'rendered context, static file, 304, redirect, 404, 405, 500, debug page, meta page, gzip- and cache-processed, 204, '
                 'returned HTTPException, RerouteWSGI as endpoint and raised, non-ASCII header) x %d methods x header sets: the recorded '
                 '(start_response, chunks, close) trace is decided by the extracted PROVED monitor, files opened under clastic.static '
-                'must be closed after close(), and wsgiref.validate runs on a fresh request. (C) RerouteWSGI: same environ object, all '
+                'must be closed after close(), and wsgiref.validate runs on a fresh request. (C) RerouteWSGI (as endpoint and raised) to 5 target answers that a re-serialising relay would rewrite (relative Location, validators on 304, Content-Length on 204, repeated and lower-case headers, custom reason phrase, empty chunks): same environ object, all '
                 'entries intact, status/headers/body relayed verbatim. non-trivial = stacks with >= 2 wrappers / non-200 kinds.'
                 % (len(KINDS), len(METHODS)))
     rep.assumptions = ["werkzeug BaseResponse.__call__/FileWrapper/get_app_iter produce the events (modelled, not verified): that ALL traces conform is not a theorem",
@@ -380,8 +399,9 @@ def run(rep, b, tier, seed, only_cases=None):
             if rr['calls'] != 1 or not rr['same_environ'] or not rr['items_intact']:
                 rep.violation('%s: the target was called %d times, same environ object: %s, all entries intact: %s'
                               % (what, rr['calls'], rr['same_environ'], rr['items_intact']), {'case': c, 'signature': 'reroute-environ'})
-            elif rr['status'] != '203 Non-Authoritative Information' or ['X-Target', 'yes'] not in [list(h) for h in rr['headers']] \
-                    or (c['method'] != 'HEAD' and rr['body'] != 'from target'):
+            elif rr['status'] != TARGETS[c.get('target', 'plain203')][0] \
+                    or [list(h) for h in rr['headers']] != [list(h) for h in TARGETS[c.get('target', 'plain203')][1]] \
+                    or (c['method'] != 'HEAD' and rr['body'] != b''.join(TARGETS[c.get('target', 'plain203')][2]).decode('latin-1')):
                 rep.violation('%s: the target\'s answer was not relayed verbatim: %s %s %r' % (what, rr['status'], rr['headers'], rr['body']),
                               {'case': c, 'signature': 'reroute-relay'})
         rep.count('kind.' + c['kind'])
